@@ -49,9 +49,10 @@ var Types = []TypeInfo{
 
 // ExtraTypes are type spellings that models may use but that the generators never pick (so adding one
 // does not change any generated workload): ANY — the only flexible type of STRICT tables; in an
-// ordinary table its affinity is NUMERIC by SQLite's rule.
+// ordinary table its affinity is NUMERIC by SQLite's rule. Spelled in upper case because SQLite reports
+// it so for STRICT tables and Atlas compares user-defined type names case-sensitively.
 var ExtraTypes = []TypeInfo{
-	{"any", `sql("any")`, "NUMERIC", true},
+	{"ANY", `sql("ANY")`, "NUMERIC", true},
 }
 
 // Affinities lists the five affinity classes.
